@@ -11,9 +11,22 @@ CLAIMS = {
     },
 }
 
+CLAIMS["C20"] = {
+    "text": "Bounded model checking of crates/utils/src/relative_path.rs (file unchanged except its `use std::path` line, which imports a component-list model): for every absolute A, B of up to 2 (quick) / 3 (thorough) symbolic components from {x, y, ., ..} that do not climb above the root, resolve_relative_path(A, relative_path(A, B)) equals the POSIX lexical normalisation of B and the relative path starts with . or ..; normalize_path equals the reference normalisation, is idempotent and emits no ./.. for up to 3 (5 thorough) components; resolve_relative_path(A, r) equals normalize(dirname(A)/r) for every relative spelling r of up to 3 (4) components; no panic without the no-climb precondition.",
+    "design_ref": "DESIGN.md section 3, C20",
+    "note": "Trusted: Kani/CBMC/SAT; the std::path component-list model and the fixed-capacity Vec model (both validated natively against the real std types at setup). Preconditions: A and B name files, B is not a directory containing A, no climbing above the root.",
+}
+_TC = {
+    "design_ref": "DESIGN.md section 3, C03/C04",
+    "note": "Kernel scope: ONE of the ~25 implemented rules (variable usage typing, AreTypesCompatible) is decided; check_type_compatibility is generic in the name type and is instantiated with an interned-name type (it uses names only through ==). Trusted: Kani/CBMC/SAT; Box targets live in a typed arena built by the harness.",
+}
+CLAIMS["C03"] = dict(_TC, text="Bounded model checking of the private kernel checker::common::check_type_compatibility: for every pair (variable type, location type) of well-formed wrapper nestings of depth <= 2 (quick) / 3 (thorough) over symbolic names, acceptance implies the specification's AreTypesCompatible (reference written from spec section 5.8.5 on an independent representation). The 38 unit tests pin one negative per error kind; the solver covers every nesting pair in the bound.")
+CLAIMS["C04"] = dict(_TC, text="Converse direction of the same kernel: for every pair of well-formed wrapper nestings of depth <= 2 (quick) / 3 (thorough) over symbolic names, AreTypesCompatible(variableType, locationType) implies that check_type_compatibility accepts (no false alarm from the variable-usage rule).")
+
 NOT_APPLICABLE = {
     "C01": PENDING, "C02": PENDING, "C03": PENDING, "C04": PENDING, "C05": PENDING,
-    "C06": PENDING, "C08": PENDING, "C09": PENDING, "C10": PENDING, "C11": PENDING,
+    "C06": PENDING, "C08": PENDING, "C09": PENDING, "C10": PENDING,
+    "C11": "Attempted and measured (harnesses kept under kv/harness/semantics): merge_scalar_definition at original<=1 + 2 extensions<=1 entries ran CBMC out of 40 GB in SSA conversion; ExtensionList with 2 operations ran out of 24 GB; the code is iterator-adaptor chains (chain/flat_map/filter_map/collect::<Result<Vec>>) over heap structs with Option<String> keys and a std sort, i.e. exactly the heap- and pointer-rich shape bit-blasting BMC cannot digest here. No bounded encoding of the real code is within reach, so nothing is claimed.",
     "C12": PENDING, "C13": PENDING, "C16": PENDING, "C17": PENDING, "C19": PENDING, "C20": PENDING,
     "C07": "The subject is the pest grammar and the Pair->AST builders; every path runs pest's VM (Rc<Vec<QueueableToken>>, stack snapshots, line_col scans). CBMC could not symbolically execute std::path on 7 concrete bytes within 10 min; there is no separable arithmetic kernel (to_pos is pest's line_col minus 1; escape decoding is a closure over Pairs). No bounded encoding of the real parser is within reach of the solver-based tools in this image.",
     "C14": "A relation between the TEXTS of two whole printers (operation_type_printer::visitor and operation_js_printer::visitor) driven through OperationPrinter::print_document, both writing through SourceMapWriter and calling the type/JSON printers; the only shared kernel (operation_variable_name) is one function used by both sides, so deciding it says nothing about agreement. Not encodable for CBMC within any budget measured here.",
